@@ -23,6 +23,13 @@ def make_host(src, n_operands):
     from cirbo.core.circuit import Circuit
 
     h = src.get('host')
+    if h and h.get('consts'):
+        # inputs x0, x1, y0, y1 plus a constant-false gate k0 and a constant-true gate k1; the operands are given by name
+        from cirbo.core.circuit import gate as G
+        c = Circuit.bare_circuit_with_labels(['x0', 'x1', 'y0', 'y1'])
+        c.emplace_gate('k0', G.ALWAYS_FALSE)
+        c.emplace_gate('k1', G.ALWAYS_TRUE)
+        return c, list(h['a']) + list(h['b'])
     if h and h.get('oplabels'):
         # a gate-free host whose inputs carry the given names, used as operands in the given order
         c = Circuit.bare_circuit_with_labels(list(h['oplabels']))
@@ -36,7 +43,10 @@ def make_host(src, n_operands):
         return c, ops
     r = random.Random(h['seed'])
     ni = h.get('ni', 3)
-    net = gen.random_netlist(r, ni=ni, ng=h.get('ng', 5), types=['AND', 'OR', 'XOR', 'NOT', 'NAND', 'GT', 'NXOR', 'IFF'], amax=3)
+    types = ['AND', 'OR', 'XOR', 'NOT', 'NAND', 'GT', 'NXOR', 'IFF']
+    if h['seed'] % 3 == 0:
+        types = types + ['ALWAYS_FALSE', 'ALWAYS_FALSE', 'ALWAYS_TRUE']      # constant gates are gates too (and may be operands)
+    net = gen.random_netlist(r, ni=ni, ng=h.get('ng', 5), types=types, amax=3)
     outs = gen.pick_outputs(r, ni, len(net[1]), kind=r.choice(['last', 'some', 'none']))
     labels = host_labels(h, ni, len(net[1]))
     c = gen.materialize(net, labels=labels, outputs=outs)
